@@ -375,8 +375,37 @@ def DX():
         {"t": "Bin", "p": BIN_CFG[1], "q": "x", "qk": "str", "v": {"t": "Sum", "q": "y", "qk": "named"}},
         {"t": "Select", "q": "s", "qk": "cached", "v": {"t": "Bin", "p": BIN_CFG[0], "q": "x", "qk": "def", "v": cnt}},
         {"t": "Categorize", "q": "c", "qk": "named_cached", "v": {"t": "Deviate", "q": "y", "qk": "str"}},
+        # thresholds that are not increasing (Stack allows any cuts)
+        {"t": "Stack", "p": [1.0, 0.0, 2.0], "q": "x", "v": cnt},
+        {"t": "Stack", "p": [1.0, 0.0, 2.0], "q": "x", "v": sy},
+        # a Count before a nested collection that mixes Counts with quantity-bearing members
+        {"t": "Branch", "ch": [cnt, {"t": "UntypedLabel", "ch": {"a": cnt, "b": sx}}]},
+        {"t": "UntypedLabel", "ch": {"a": cnt, "b": {"t": "Branch", "ch": [cnt, b2(cnt)]}, "c": sy}},
+        # aggregators that receive the caller's weight array next to a sibling / under a Fraction
+        {"t": "Fraction", "q": "s", "v": {"t": "Stack", "p": STACK_CFG[0], "q": "x", "v": cnt}},
+        {"t": "Branch", "ch": [{"t": "Stack", "p": STACK_CFG[0], "q": "x", "v": cnt}, sx, cnt]},
+        {"t": "Fraction", "q": "s", "v": irr4(cnt)},
+        # named members of a collection in a name-suppressing position
+        b2({"t": "Branch", "ch": [{"t": "Sum", "q": "y", "qk": "named"}, {"t": "Maximize", "q": "y", "qk": "named"}]}),
+        cat({"t": "UntypedLabel", "ch": {"a": {"t": "Average", "q": "y", "qk": "named"}, "b": cnt}}),
     ]
     return out
+
+
+def NDX():
+    """Binning on non-dyadic edges with a non-Count content (so that fill.numpy takes the generic path, which uses
+    the same index formula as fill): the two fill paths must agree bit for bit even where that formula rounds."""
+    sy, avg = {"t": "Sum", "q": "y"}, {"t": "Average", "q": "y"}
+    return [
+        {"t": "Bin", "p": [10, 0.0, 1.0], "q": "x", "v": sy},
+        {"t": "Bin", "p": [5, -1.0, 1.0], "q": "x", "v": sy},
+        {"t": "Bin", "p": [3, 0.0, 0.3], "q": "x", "v": avg},
+        {"t": "Bin", "p": [7, -0.7, 0.7], "q": "x", "v": sy},
+        {"t": "SparselyBin", "p": [0.1, 0.0], "q": "x", "v": sy},
+        {"t": "SparselyBin", "p": [1.0 / 3.0, 0.05], "q": "x", "v": {"t": "Count"}},
+        {"t": "IrregularlyBin", "p": [0.1, 0.2, 0.3], "q": "x", "v": sy},
+        {"t": "CentrallyBin", "p": [0.1, 0.2, 0.7], "q": "x", "v": sy},
+    ]
 
 
 def D3_leaves():
